@@ -333,15 +333,24 @@ def _statement_helper(fn: ast.AST) -> bool:
     if any(not (isinstance(d, ast.Name) and d.id == "staticmethod") for d in fn.decorator_list):
         return False
     a = fn.args
-    if a.vararg or a.kwarg or a.kwonlyargs or a.posonlyargs or a.defaults:
+    if a.vararg or a.kwarg or a.posonlyargs or a.defaults or any(d is not None for d in a.kw_defaults):
         return False
     body = [s for s in fn.body if not (isinstance(s, ast.Expr) and isinstance(s.value, ast.Constant))]
     if not (1 <= len(body) <= 3):
         return False
+    pnames = {x.arg for x in a.args + a.kwonlyargs}
+
+    def param_store(t):
+        # `param[...] = v` / `param.attr = v`: a store into the object the caller handed over
+        while isinstance(t, (ast.Subscript, ast.Attribute)):
+            t = t.value
+        return isinstance(t, ast.Name) and t.id in pnames
 
     def ok(stmts, depth):
         for s in stmts:
             if isinstance(s, ast.Expr) and isinstance(s.value, ast.Call):
+                continue
+            if isinstance(s, ast.Assign) and len(s.targets) == 1 and isinstance(s.targets[0], (ast.Subscript, ast.Attribute)) and param_store(s.targets[0]):
                 continue
             if isinstance(s, ast.If) and depth == 0 and ok(s.body, 1) and ok(s.orelse, 1):
                 continue
@@ -362,6 +371,9 @@ def _statement_helper(fn: ast.AST) -> bool:
         if isinstance(n, ast.Call) and isinstance(n.func, ast.Attribute) and isinstance(n.func.value, ast.Name) and n.func.attr == fn.name:
             return False  # recursive
     return True
+
+
+_SH_COUNTER = [0]
 
 
 def _inline_statement_helpers(tree: ast.Module) -> None:
@@ -391,7 +403,7 @@ def _inline_statement_helpers(tree: ast.Module) -> None:
                         new = []
                         for st in lst:
                             rep = None
-                            if isinstance(st, ast.Expr) and isinstance(st.value, ast.Call) and not st.value.keywords and all(_simple_arg(x) for x in st.value.args):
+                            if isinstance(st, ast.Expr) and isinstance(st.value, ast.Call) and all(k.arg is not None for k in st.value.keywords) and not any(isinstance(x, ast.Starred) for x in st.value.args):
                                 c = st.value
                                 h = None
                                 recv = None
@@ -406,12 +418,24 @@ def _inline_statement_helpers(tree: ast.Module) -> None:
                                     args = list(c.args)
                                     if is_class and not static:
                                         args = [recv] + args
-                                    if len(params) == len(args):
-                                        rep = subst(h.body, dict(zip(params, args)))
-                                        for r in rep:
-                                            for x in ast.walk(r):
-                                                if not hasattr(x, "lineno") or True:
-                                                    pass
+                                    kwn = [a.arg for a in h.args.kwonlyargs]
+                                    bound = dict(zip(params, args))
+                                    okb = len(args) <= len(params)
+                                    for k in c.keywords:
+                                        if k.arg in bound or k.arg not in params + kwn:
+                                            okb = False
+                                        bound[k.arg] = k.value
+                                    if okb and set(bound) == set(params + kwn):
+                                        # arguments that are not plain names / attributes are evaluated once, into a fresh local
+                                        pre = []
+                                        stored = {t_.id for x in ast.walk(h) for t_ in [x] if isinstance(t_, ast.Name) and isinstance(t_.ctx, ast.Store)}
+                                        for pn, av in list(bound.items()):
+                                            if not _simple_arg(av):
+                                                _SH_COUNTER[0] += 1
+                                                tmp = f"__sh{_SH_COUNTER[0]}_{pn}"
+                                                pre.append(ast.copy_location(ast.Assign(targets=[ast.Name(id=tmp, ctx=ast.Store())], value=copy.deepcopy(av), type_comment=None), st))
+                                                bound[pn] = ast.Name(id=tmp, ctx=ast.Load())
+                                        rep = [ast.fix_missing_locations(x) for x in pre] + subst(h.body, bound)
                             if rep is not None:
                                 new.extend(rep)
                                 changed = True
